@@ -355,15 +355,17 @@ func (p *Parser) parseObjectLiteral() ast.Expression {
 			obj.Pairs[key] = p.parseExpression(LOWEST)
 		}
 
-		if p.peekTokenIs(token.RBRACE) {
-			p.nextToken() // skip "}"
-			break
-		}
-
 		if p.peekTokenIs(token.COMMA) {
 			p.nextToken() // move to ","
 			p.nextToken() // skip ","
+			continue
 		}
+
+		if !p.expectPeek(token.RBRACE) { // move to "}"
+			return nil
+		}
+
+		break
 	}
 
 	return obj
@@ -973,6 +975,16 @@ func (p *Parser) parseBlockStmt() *ast.BlockStmt {
 	stmt := &ast.BlockStmt{Token: p.curToken}
 
 	for !p.curTokenIs(token.END) {
+		if p.curTokenIs(token.EOF) {
+			p.newError(
+				p.curToken.ErrorLine(),
+				fail.ErrWrongNextToken,
+				token.String(token.END),
+				token.String(token.EOF),
+			)
+			return stmt
+		}
+
 		block := p.parseStatement()
 
 		if block != nil {
